@@ -26,7 +26,8 @@ class BLOB:
 
     @classmethod
     def from_base64(cls, binary_base64: str, format: str) -> BLOB:
-        return cls(base64.b64decode(binary_base64), format)
+        # an empty BLOB has no text at all (None after parsing)
+        return cls(base64.b64decode(binary_base64 or ""), format)
 
     def __len__(self):
         return self.size
